@@ -629,6 +629,9 @@ class TestManager:
             logging.info('Exiting now ...')
             self.remove_root()
             sys.exit(1)
+        except Exception:
+            self.remove_root()
+            raise
 
     def process_result(self, test_env):
         if self.print_diff:
